@@ -7,14 +7,14 @@ from __future__ import annotations
 import ast
 import re
 
-from ..astutil import call_attr, calls_in, text_facts, unparse, walk_local
+from ..astutil import call_attr, calls_in, guard_facts, text_facts, unparse, walk_local
 from ..cfg import CFG
 from ..dataflow import reaching_defs, resolved_text
 from ..paths import element_calls, enum_paths
 from ..report import Finding, Report
 from ..seqterm import SeqEval
 from ..setbuild import describe as describe_set
-from ..srcindex import AnalysisError, ClassInfo, Index
+from ..srcindex import AnalysisError, ClassInfo, Index, raw_funcs
 
 DAF = "xdsl/irdl/declarative_assembly_format.py"
 FMT = "xdsl/dialects/utils/format.py"
@@ -390,8 +390,62 @@ def check_default_inference(idx: Index, rep: Report) -> None:
                 r.ok(inst, f"{f.module.relpath}:{c.lineno} `{txt[:80]}`")
             else:
                 r.fail(inst, Finding("C05.R8", f.fq, f"default-not-inferred:{kind}", f"the {kind} loop verifies `{txt[:80]}`, which does not fall back to `{d}.default_value`: an entry equal to its default is elided by the printer, so on re-parsing the constraint variable it binds stays unresolved and the types inferred from it cannot be built", f"{f.module.relpath}:{c.lineno}"))
+    # the opposite iteration: over the *parsed* values, looking the definition up - an elided default is never visited
+    for lp in walk_local(f.node):
+        if not (isinstance(lp, ast.For) and isinstance(lp.iter, ast.Call) and call_attr(lp.iter) == "items" and isinstance(lp.target, ast.Tuple) and len(lp.target.elts) == 2):
+            continue
+        src = resolved_text(cfg, lp.iter.func.value, cfg.node_of(lp))  # type: ignore[attr-defined]
+        srcs = [src]
+        # `for defs, parsed in ((op_def.properties, state.properties), (...)): for name, attr in parsed.items():`
+        for outer in walk_local(f.node):
+            if isinstance(outer, ast.For) and isinstance(outer.iter, (ast.Tuple, ast.List)) and isinstance(outer.target, ast.Tuple) and any(x is lp for x in ast.walk(outer)):
+                for k_, t_ in enumerate(outer.target.elts):
+                    if isinstance(t_, ast.Name) and t_.id == src:
+                        srcs = [unparse(e_.elts[k_]) for e_ in outer.iter.elts if isinstance(e_, (ast.Tuple, ast.List)) and len(e_.elts) == len(outer.target.elts)]
+        kinds = [m_.group(1) for s_ in srcs if (m_ := re.fullmatch(r"state\.(properties|attributes)", s_))]
+        if not kinds or len(kinds) != len(srcs) or all(k_ in seen for k_ in kinds):
+            continue
+        kind = "/".join(kinds)
+        name, v = unparse(lp.target.elts[0]), unparse(lp.target.elts[1])
+        ver = [c for c in calls_in(lp) if call_attr(c) == "verify" and isinstance(c.func, ast.Attribute) and unparse(c.func.value).endswith(".constr") and c.args and unparse(c.args[0]) == v]
+        if ver:
+            seen.update(kinds)
+            r.fail(f"{f.fq}:{kind}", Finding("C05.R8", f.fq, f"default-not-inferred:{kind}", f"the {kind} are verified by iterating the *parsed* entries (`for {name}, {v} in {unparse(lp.iter)}`): a definition whose value equals its default is elided by the printer, is therefore absent after parsing and is never visited, so the constraint variable it binds stays unresolved and the types inferred from it cannot be built", f"{f.module.relpath}:{ver[0].lineno}"))
     if seen != {"properties", "attributes"}:
         raise AnalysisError(f"{f.fq}: loops verifying the parsed properties and attributes against their definitions not found (found {sorted(seen)})")
+
+
+def check_index_wraparound(idx: Index, rep: Report) -> None:
+    """In a loop whose index starts at 0 (`enumerate(xs)`, `range(n)`), `ys[i - 1]` in the first iteration is `ys[-1]`,
+    the LAST element (Python wraps negative indices): per-segment slices computed from running end offsets then give
+    the first segment the wrong start."""
+    r = rep.rule("C05.R9", "format code (print / parse methods of operations, attributes and custom directives) does not subscript with `i - k` inside a loop whose index i starts at 0 without excluding the first iterations", floor=None)
+    n_loops = 0
+    for mi in idx.modules.values():
+        rel = mi.relpath
+        if not (rel.startswith("xdsl/dialects/") or rel.startswith("xdsl/irdl/declarative_assembly_format")):
+            continue
+        for f in raw_funcs(mi):
+            if not (f.name.startswith("print") or f.name.startswith("parse")):
+                continue
+            for w in walk_local(f.node):
+                if not isinstance(w, ast.For):
+                    continue
+                ix = None
+                if isinstance(w.iter, ast.Call) and unparse(w.iter.func) == "enumerate" and len(w.iter.args) == 1 and not w.iter.keywords and isinstance(w.target, ast.Tuple) and isinstance(w.target.elts[0], ast.Name):
+                    ix = w.target.elts[0].id
+                elif isinstance(w.iter, ast.Call) and unparse(w.iter.func) == "range" and len(w.iter.args) == 1 and isinstance(w.target, ast.Name):
+                    ix = w.target.id
+                if ix is None:
+                    continue
+                n_loops += 1
+                for sub in ast.walk(w):
+                    if isinstance(sub, ast.Subscript) and isinstance(sub.slice, ast.BinOp) and isinstance(sub.slice.op, ast.Sub) and isinstance(sub.slice.left, ast.Name) and sub.slice.left.id == ix and isinstance(sub.slice.right, ast.Constant) and isinstance(sub.slice.right.value, int) and sub.slice.right.value > 0:
+                        facts = {(unparse(t_), p_) for t_, p_ in guard_facts(f.node, sub)}
+                        guarded = any((t_ in (f"{ix} > 0", f"{ix} != 0", ix, f"{ix} >= 1", f"0 < {ix}") and p_) or (t_ in (f"{ix} == 0", f"not {ix}", f"{ix} < 1") and not p_) for t_, p_ in facts)
+                        if not guarded:
+                            r.fail(f"{f.fq}:{unparse(sub)}", Finding("C05.R9", f.fq, f"index-wraparound:{unparse(sub)}", f"`{unparse(sub)}` inside `{unparse(w).splitlines()[0][:60]}`: in the first iteration the subscript is -{sub.slice.right.value}, i.e. the last element - the first per-case slice starts at the total instead of 0 and the operands of the first case are dropped from the printed form", f"{rel}:{sub.lineno}"))
+    r.ok("format loops scanned", f"{n_loops} zero-based index loops in print / parse code")
 
 
 def check(idx: Index, rep: Report, tier: str) -> str:
@@ -404,6 +458,7 @@ def check(idx: Index, rep: Report, tier: str) -> str:
     rep.run(check_alignment, idx, rep)
     rep.run(check_index_list_reader, idx, rep)
     rep.run(check_default_inference, idx, rep)
+    rep.run(check_index_wraparound, idx, rep)
     return (
         "Pairing / sibling-agreement rules over the declarative format engine and every hand-written operation format: "
         "parse+print pairing, consumed-input polarity of all parse implementations, set_empty discipline of optional groups, "
